@@ -778,3 +778,37 @@ fn cmp_expect(rf: Rf, x: &Series, start: usize, i: usize, vals: &[f64], n: usize
         _ => unreachable!(),
     }
 }
+
+// ---------------------------------------------------------------------------------------
+// convenience: any entry point on f64 vectors
+// ---------------------------------------------------------------------------------------
+
+/// Call any registered entry point on `Vec<f64>` input(s) (fast path), `Vec<f64>` output.
+pub fn call_vec_f64(rf: Rf, x: &Vec<f64>, y: &Vec<f64>, w: usize, mp: Option<usize>, path: Path) -> Vec<f64> {
+    call_generic_f64::<Vec<f64>, Vec<f64>>(rf, x, y, w, mp, path)
+}
+
+/// Call any registered entry point (except fdiff) on containers of f64.
+pub fn call_generic_f64<V, O>(rf: Rf, x: &V, y: &V, w: usize, mp: Option<usize>, path: Path) -> O
+where
+    V: Vec1View<f64>,
+    O: Vec1<f64>,
+{
+    if rf.is_pair() {
+        call_valid2::<V, f64, V, f64, O, f64>(rf, x, y, w, mp, path)
+    } else if matches!(rf, Rf::Fdiff(_) | Rf::VFdiff(_)) {
+        panic!("fdiff needs call_fdiff")
+    } else if rf.is_plain() {
+        call_plain1::<V, f64, O, f64>(rf, x, w, mp, path)
+    } else {
+        call_valid1::<V, f64, O, f64>(rf, x, w, mp, path)
+    }
+}
+
+/// every registered entry point except the fdiff pair
+pub fn all_fns_no_fdiff() -> Vec<Rf> {
+    let mut v = PLAIN_FNS.to_vec();
+    v.extend(valid1_fns());
+    v.extend_from_slice(&PAIR_FNS);
+    v
+}
